@@ -999,7 +999,7 @@ pub fn prop() -> DiceProp {
         build,
         fixed: no_fixed,
         classify,
-        rule: "tuple / named struct with 1..4 fields (65 % of the neighbours repeat the previous field's type; types `Own<A>`, `Own<B>`, `Own<T>`, `Vec<A>`, `Box<Own<A>>`, `&'static Own<A>`, a bare parameter `V`, projections `Q::A` / `<Q as Tr>::A`, `OwnL<'a>`, `OwnN<N>`, `OwnG<[u8; N]>` (const parameter only as an array length), `&'a mut Own<A>`, fillers; the struct's lifetime / type / const parameters as the fields need them, optionally with inline bounds or a where-clause) deriving a subset of Deref(+DerefMut), Index(+IndexMut), IntoIterator, AsRef, AsMut, each with its own selected field expressed by `#[attr]` on it or `#[attr(ignore)]` on the others (AsRef/AsMut: marked fields, skip style), `forward` on field or struct, type lists containing the field's own type verbatim / through an alias / through another path and foreign types, owned/ref/ref_mut; oracle: (address, size) of what the derived impl returns == the selected field's own storage (no forward; listed type == field type) resp. == what `<FieldTy as Trait>::method(&s.field)` returns (forward, index, listed foreign type), element addresses/values and order for the three iteration forms, writes through the mutable forms visible in the field; user impls that collide (E0119) with an impl the derive must not generate (AsRef/AsMut of un-indicated / skipped fields, owned IntoIterator under a field-level `ref, ref_mut`); `Own`'s own impls answer from a second allocation so the two expectations never coincide; non-trivial = two fields of equal type, or forward, or a type list; distinct by program text".into(),
+        rule: "tuple / named struct with 1..4 fields (65 % of the neighbours repeat the previous field's type; types `Own<A>`, `Own<B>`, `Own<T>`, `Vec<A>`, `Box<Own<A>>`, `&'static Own<A>`, a bare parameter `V`, projections `Q::A` / `<Q as Tr>::A`, `OwnL<'a>`, `OwnN<N>`, `OwnG<[u8; N]>` (const parameter only as an array length), `&'a mut Own<A>`, fillers; the struct's lifetime / type / const parameters as the fields need them, optionally with inline bounds or a where-clause) deriving a subset of Deref(+DerefMut), Index(+IndexMut), IntoIterator, AsRef, AsMut, each with its own selected field expressed by `#[attr]` on it or `#[attr(ignore)]` on the others (AsRef/AsMut: marked fields, skip style), `forward` on field or struct (struct-level arguments also together with a bare `#[attr]` marker on the selected field), type lists containing the field's own type verbatim / through an alias / through another path and foreign types, owned/ref/ref_mut; oracle: (address, size) of what the derived impl returns == the selected field's own storage (no forward; listed type == field type) resp. == what `<FieldTy as Trait>::method(&s.field)` returns (forward, index, listed foreign type), element addresses/values and order for the three iteration forms, writes through the mutable forms visible in the field; user impls that collide (E0119) with an impl the derive must not generate (AsRef/AsMut of un-indicated / skipped fields, owned IntoIterator under a field-level `ref, ref_mut`); `Own`'s own impls answer from a second allocation so the two expectations never coincide; non-trivial = two fields of equal type, or forward, or a type list; distinct by program text".into(),
         assumptions: vec![
             "a reference form of IntoIterator (`&S`, `&mut S`) that the attribute does not list is a violation; the *owned* form next to reference kinds (e.g. `owned` next to a lone `ref`) is checked when present but its existence is not judged, its absence is asserted only for a field-level `ref, ref_mut` (tests/into_iterator.rs `Numbers3`)".into(),
             "absence probes for AsRef/AsMut are emitted only where no generated impl can unify with the probe (no `forward`, no type parameter in a selected field's type)".into(),
